@@ -170,3 +170,114 @@ Theorem coerce_uses_those_calls :
 Proof. exact TieCoerce.coerce_uses_those_calls. Qed.
 Print Assumptions coerce_uses_those_calls.
 
+
+(* ---- the property at the level of Evaluate (C02c.v) ---- *)
+From Coq Require Import List String ZArith NArith Bool. From Bexpr Require Import Base Strconv Ast Univ Eval C01 C02 C02b C02c. Import ListNotations. Open Scope Z_scope.
+
+Theorem c02_equal_int :
+  forall (re : string -> string -> option bool) (cfg : config) (ls : locals) (s : selector) (d : iface) (t : gtype) (z : Z) (lit : string),
+  selects cfg ls s d (Some (t, VInt z)) ->
+  sclass_of (kind_of_type t) = SInt ->
+  eval re cfg ls (EMatch s OpEq (Some lit)) d =
+  match parse_int lit 0 64 with
+  | POk y => Out (y =? z) None
+  | PErr e => Out false (Some (perr_c e))
+  end.
+Proof. exact C02c.c02_equal_int. Qed.
+Print Assumptions c02_equal_int.
+
+Theorem c02_equal_uint :
+  forall (re : string -> string -> option bool) (cfg : config) (ls : locals) (s : selector) (d : iface) (t : gtype) (z : Z) (lit : string),
+  selects cfg ls s d (Some (t, VUint z)) ->
+  sclass_of (kind_of_type t) = SUint ->
+  eval re cfg ls (EMatch s OpEq (Some lit)) d =
+  match parse_uint lit 0 64 with
+  | POk y => Out (y =? z) None
+  | PErr e => Out false (Some (perr_c e))
+  end.
+Proof. exact C02c.c02_equal_uint. Qed.
+Print Assumptions c02_equal_uint.
+
+Theorem c02_equal_bool :
+  forall (re : string -> string -> option bool) (cfg : config) (ls : locals) (s : selector) (d : iface) (t : gtype) (b : bool) (lit : string),
+  selects cfg ls s d (Some (t, VBool b)) ->
+  sclass_of (kind_of_type t) = SBool ->
+  eval re cfg ls (EMatch s OpEq (Some lit)) d =
+  match parse_bool lit with
+  | POk y => Out (eqb y b) None
+  | PErr e => Out false (Some (perr_c e))
+  end.
+Proof. exact C02c.c02_equal_bool. Qed.
+Print Assumptions c02_equal_bool.
+
+Theorem c02_equal_float64 :
+  forall (re : string -> string -> option bool) (cfg : config) (ls : locals) (s : selector) (d : iface) (t : gtype) (x : Z) (lit : string),
+  selects cfg ls s d (Some (t, VF64 x)) ->
+  sclass_of (kind_of_type t) = SF64 ->
+  eval re cfg ls (EMatch s OpEq (Some lit)) d =
+  match parse_float lit 64 with
+  | POk y => Out (feq y x 53 11) None
+  | PErr e => Out false (Some (perr_c e))
+  end.
+Proof. exact C02c.c02_equal_float64. Qed.
+Print Assumptions c02_equal_float64.
+
+Theorem c02_equal_float32 :
+  forall (re : string -> string -> option bool) (cfg : config) (ls : locals) (s : selector) (d : iface) (t : gtype) (x : Z) (lit : string),
+  selects cfg ls s d (Some (t, VF32 x)) ->
+  sclass_of (kind_of_type t) = SF32 ->
+  eval re cfg ls (EMatch s OpEq (Some lit)) d =
+  match parse_float lit 32 with
+  | POk y => Out (feq y x 24 8) None
+  | PErr e => Out false (Some (perr_c e))
+  end.
+Proof. exact C02c.c02_equal_float32. Qed.
+Print Assumptions c02_equal_float32.
+
+Theorem c02_equal_string :
+  forall (re : string -> string -> option bool) (cfg : config) (ls : locals) (s : selector) (d : iface) (t : gtype) (x lit : string),
+  selects cfg ls s d (Some (t, VStr x)) ->
+  sclass_of (kind_of_type t) = SString -> is_json_number t = false -> eval re cfg ls (EMatch s OpEq (Some lit)) d = Out (lit =? x)%string None.
+Proof. exact C02c.c02_equal_string. Qed.
+Print Assumptions c02_equal_string.
+
+Theorem c02_not_equal :
+  forall (re : string -> string -> option bool) (cfg : config) (ls : locals) (s : selector) (d v : iface) (lit : string),
+  selects cfg ls s d v -> eval re cfg ls (EMatch s OpNeq (Some lit)) d = negate (eval re cfg ls (EMatch s OpEq (Some lit)) d).
+Proof. exact C02c.c02_not_equal. Qed.
+Print Assumptions c02_not_equal.
+
+Theorem c02_nonscalar_is_error :
+  forall (re : string -> string -> option bool) (cfg : config) (ls : locals) (s : selector) (d : iface) (t : gtype) (x : gval) (lit : string),
+  selects cfg ls s d (Some (t, x)) ->
+  plain t -> sclass_of (kind_of_type t) = SNone -> eval re cfg ls (EMatch s OpEq (Some lit)) d = Out false (Some ENoEquality).
+Proof. exact C02c.c02_nonscalar_is_error. Qed.
+Print Assumptions c02_nonscalar_is_error.
+
+Theorem c02_nil_is_error :
+  forall (re : string -> string -> option bool) (cfg : config) (ls : locals) (s : selector) (d : iface) (lit : string),
+  selects cfg ls s d None -> eval re cfg ls (EMatch s OpEq (Some lit)) d = Out false (Some ENoEquality).
+Proof. exact C02c.c02_nil_is_error. Qed.
+Print Assumptions c02_nil_is_error.
+
+Theorem c02_decimal_literal_int :
+  forall (re : string -> string -> option bool) (cfg : config) (ls : locals) (s : selector) (d : iface) (t : gtype) (z : Z) (ds : list Z),
+  selects cfg ls s d (Some (t, VInt z)) ->
+  sclass_of (kind_of_type t) = SInt ->
+  canonical ds -> dval ds 0 < 2 ^ 63 -> eval re cfg ls (EMatch s OpEq (Some (dstr ds))) d = Out (dval ds 0 =? z) None.
+Proof. exact C02c.c02_decimal_literal_int. Qed.
+Print Assumptions c02_decimal_literal_int.
+
+Theorem c02_decimal_literal_out_of_range :
+  forall (re : string -> string -> option bool) (cfg : config) (ls : locals) (s : selector) (d : iface) (t : gtype) (z : Z) (ds : list Z),
+  selects cfg ls s d (Some (t, VInt z)) ->
+  sclass_of (kind_of_type t) = SInt ->
+  canonical ds -> 2 ^ 63 <= dval ds 0 <= 2 ^ 64 - 1 -> eval re cfg ls (EMatch s OpEq (Some (dstr ds))) d = Out false (Some ECoerceRange).
+Proof. exact C02c.c02_decimal_literal_out_of_range. Qed.
+Print Assumptions c02_decimal_literal_out_of_range.
+
+Theorem parse_bool_table :
+  forall (s : string) (b : bool), parse_bool s = POk b <-> In (s, b) go_parsebool_spellings.
+Proof. exact C02c.parse_bool_table. Qed.
+Print Assumptions parse_bool_table.
+
